@@ -72,11 +72,27 @@ def run(chk, repo):
     # -------------------------------------------------------------- lag_matrix
     lm = repo.find(LA, "lag_matrix")
     guard = [s for s in docstring_free(lm.body) if isinstance(s, ast.If) and unparse(s.test) == "max_lag is None"]
-    ok = len(guard) == 1 and len(guard[0].orelse) == 1 and isinstance(guard[0].orelse[0], ast.If) \
-        and same_cond(norm_cmp(guard[0].orelse[0].test, call_hook=e9.len_hook), parse_cond("max_lag >= L", {"L": Llen})) \
-        and "ValueError" in unparse(guard[0].orelse[0].body[0])
-    chk.decide(ok, "E9", WA("lag_matrix"), "max_lag >= len(blk) raises ValueError", why="otherwise n - i can reach below 0 "
-               "(wrapping to the end of the block) or the sums are empty", node=lm)
+    # the guards are evaluated for no lag, an admissible lag and a lag that is too large (whatever their wording)
+    from ..dtable import Facts, walk as _dwalk
+    pre_ = [s for s in docstring_free(lm.body) if not isinstance(s, ast.Return)]
+    outcomes = {}
+    dflt_seen = None
+    try:
+        for label, F_ in (("none", Facts(none=["max_lag"], lens={"blk": 5})),
+                          ("fits", Facts(values={"max_lag": 4}, kinds={"max_lag": {"int"}}, lens={"blk": 5})),
+                          ("equal", Facts(values={"max_lag": 5}, kinds={"max_lag": {"int"}}, lens={"blk": 5})),
+                          ("large", Facts(values={"max_lag": 9}, kinds={"max_lag": {"int"}}, lens={"blk": 5}))):
+            w_ = _dwalk(pre_, F_, "lag_matrix guards")
+            outcomes[label] = (w_.end, unparse(w_.last) if w_.last is not None else "")
+            if label == "none":
+                dflt_seen = [st_ for st_ in w_.ran if isinstance(st_, ast.Assign) and unparse(st_.targets[0]) == "max_lag"]
+        ok = outcomes["none"][0] == "fall" and outcomes["fits"][0] == "fall" and all(
+            outcomes[k_][0] == "raise" and "ValueError" in outcomes[k_][1] for k_ in ("equal", "large"))
+        chk.decide(ok, "E9", WA("lag_matrix"), "max_lag >= len(blk) raises ValueError (%s)" % ", ".join(
+            "%s -> %s" % (k_, v_[0]) for k_, v_ in sorted(outcomes.items())), why="otherwise n - i can reach below 0 "
+            "(wrapping to the end of the block) or the sums are empty", node=lm)
+    except AnalysisError as ex:
+        chk.defer(str(ex))
     subs = [n for n in ast.walk(lm) if isinstance(n, ast.Subscript) and unparse(n.value) == "blk"]
     chk.require(len(subs) == 2, "lag_matrix: the two subscripts of blk not found")
     forms = []
@@ -101,11 +117,12 @@ def run(chk, repo):
         and isinstance(getattr(ge_, "_parent", None), ast.Call) and unparse(ge_._parent.func) == "sum" and len(ge_._parent.args) == 1
     chk.decide(okp, "C10.tables", WA("lag_matrix"), "entry = sum(%s ...)" % (unparse(ge_.elt) if ge_ is not None else "?"),
                why="each entry is the plain sum of the products of the two shifted samples", node=lm)
-    dflt_ = [st for st in guard[0].body if isinstance(st, ast.Assign) and unparse(st.targets[0]) == "max_lag"] if guard else []
+    dflt_ = dflt_seen if dflt_seen else ([st for st in guard[0].body if isinstance(st, ast.Assign)
+                                          and unparse(st.targets[0]) == "max_lag"] if guard else [])
     okd = False
     if len(dflt_) == 1:
         try:
-            okd = Evaluator(call_hook=e9.len_hook).ev(dflt_[0].value) == Llen - 1
+            okd = Evaluator(e9.size_aliases(lm), call_hook=e9.len_hook).ev(dflt_[0].value) == Llen - 1
         except Inconclusive:
             okd = False
     chk.decide(okd, "C10.tables", WA("lag_matrix"), "default max_lag: " + (short(dflt_[0]) if dflt_ else "?"),
